@@ -365,6 +365,7 @@ def defer():
                     que.sort(key=lambda i: i.get('level'))
                     t.set('status', State.waiting)
                     t.set('event', 'Periodic timer')
+                    t.set('runid', None)  # a timer event starts a new run
 
                     if _is_asp(t):
                         t.get('todo').add('__all__')
